@@ -177,6 +177,103 @@ static void mput(M& m, std::size_t i, std::size_t j, T x) {   // i = major index
 	m.set_element(p, j, x);
 }
 
+// ---- sparse expressions as right-hand sides
+template <class Tgt, class E> static void plain_set(Tgt& t, E const& e) { t = e; }
+// compressed_vector = expression / compressed_matrix = expression: sparse.hpp:131 does not compile; never generated
+template <class E> static void plain_set(SVec&, E const&) { std::cout << "UNSUPPORTED "; }
+template <class E> static void plain_set(SMatR&, E const&) { std::cout << "UNSUPPORTED "; }
+template <class E> static void plain_set(SMatC&, E const&) { std::cout << "UNSUPPORTED "; }
+
+template <class Tgt, class E>
+static void xapply(Tgt& t, E const& e, bool noal, int o) {
+	if (noal) {
+		switch (o) {
+		case 0: noalias(t) = e; break;
+		case 1: noalias(t) += e; break;
+		case 2: noalias(t) -= e; break;
+		default: noalias(t) *= e; break;
+		}
+	} else {
+		switch (o) {
+		case 0: plain_set(t, e); break;
+		case 1: t += e; break;
+		case 2: t -= e; break;
+		default: t *= e; break;
+		}
+	}
+}
+// `-=` of an element-wise product of sparse operands does not compile: minus_assign builds (-1)*(a*b) through the
+// optimizer as a vector_binary with the functor compose<multiply, multiply_scalar>, which has no
+// left/right_zero_remains members (cpu/iterator.hpp:752).  Never generated.
+template <class Tgt, class E>
+static void xapply_nominus(Tgt& t, E const& e, bool noal, int o) {
+	if (o == 2) { std::cout << "UNSUPPORTED "; return; }
+	if (noal) {
+		switch (o) {
+		case 0: noalias(t) = e; break;
+		case 1: noalias(t) += e; break;
+		default: noalias(t) *= e; break;
+		}
+	} else {
+		switch (o) {
+		case 0: plain_set(t, e); break;
+		case 1: t += e; break;
+		default: t *= e; break;
+		}
+	}
+}
+template <class Tgt>
+static void xvec(Tgt& t, bool noal, int o, int shape, int a, int b, int c, long k) {
+	switch (shape) {
+	case 1: xapply(t, SV[a] + SV[b], noal, o); break;
+	case 2: xapply(t, T(k) * SV[a], noal, o); break;
+	case 3: xapply_nominus(t, SV[a] * SV[b], noal, o); break;
+	case 4: xapply(t, SV[a] + T(k) * SV[b], noal, o); break;
+	case 5: xapply(t, abs(SV[a]), noal, o); break;
+	case 6: xapply(t, sqr(SV[a]) + SV[b], noal, o); break;
+	case 7: xapply(t, unit_vector<T, cpu_tag>(t.size(), std::size_t(b), T(k)), noal, o); break;
+	case 8: xapply(t, SV[a] - SV[b], noal, o); break;
+	default: xapply(t, (SV[a] + SV[b]) + SV[c], noal, o); break;
+	}
+}
+// matrix expressions: noalias forms and plain += only (keeps the number of template instantiations moderate)
+template <class Tgt, class E>
+static void xmapply(Tgt& t, E const& e, bool noal, int o) {
+	if (noal) {
+		switch (o) {
+		case 0: noalias(t) = e; break;
+		case 1: noalias(t) += e; break;
+		case 2: noalias(t) -= e; break;
+		default: noalias(t) *= e; break;
+		}
+	} else t += e;
+}
+template <class Tgt, class E>
+static void xmapply_nominus(Tgt& t, E const& e, bool noal, int o) {
+	if (o == 2) { std::cout << "UNSUPPORTED "; return; }
+	if (noal) {
+		switch (o) {
+		case 0: noalias(t) = e; break;
+		case 1: noalias(t) += e; break;
+		default: noalias(t) *= e; break;
+		}
+	} else t += e;
+}
+template <class Tgt, class M>
+static void xmat2(Tgt& t, M* S, bool noal, int o, int shape, int a, int b, long k) {
+	switch (shape) {
+	case 1: xmapply(t, S[a] + S[b], noal, o); break;
+	case 2: xmapply(t, T(k) * S[a], noal, o); break;
+	case 3: xmapply_nominus(t, S[a] * S[b], noal, o); break;
+	case 4: xmapply(t, S[a] + T(k) * S[b], noal, o); break;
+	default: xmapply(t, S[a] - S[b], noal, o); break;
+	}
+}
+template <class Tgt>
+static void xmat(Tgt& t, char orient, bool noal, int o, int shape, int a, int b, long k) {
+	if (orient == 'R') xmat2(t, SMr, noal, o, shape, a, b, k); else xmat2(t, SMc, noal, o, shape, a, b, k);
+}
+
 static int opcode(std::string const& o) { return o == "=" ? 0 : o == "+=" ? 1 : o == "-=" ? 2 : 3; }
 
 int main(int argc, char** argv) {
@@ -248,6 +345,21 @@ int main(int argc, char** argv) {
 			case 'c': scal(SMc[t], opcode(o), c); break;
 			case 'd': scal(DMr[t], opcode(o), c); break;
 			default: scal(DMc[t], opcode(o), c); break;
+			}
+			printm(t);
+		} else if (cmd == "XV") {
+			std::string form, o; int t, shape, a, b, c; long k; is >> form >> o >> t >> shape >> a >> b >> c >> k;
+			if (vk[t] == 's') xvec(SV[t], form == "noalias", opcode(o), shape, a, b, c, k);
+			else xvec(DV[t], form == "noalias", opcode(o), shape, a, b, c, k);
+			printv(t);
+		} else if (cmd == "XM") {
+			std::string form, o; int t, shape, a, b; char orient; long k; is >> form >> o >> t >> orient >> shape >> a >> b >> k;
+			bool na = form == "noalias"; int oc = opcode(o);
+			switch (mk[t]) {
+			case 's': xmat(SMr[t], orient, na, oc, shape, a, b, k); break;
+			case 'c': xmat(SMc[t], orient, na, oc, shape, a, b, k); break;
+			case 'd': xmat(DMr[t], orient, na, oc, shape, a, b, k); break;
+			default: xmat(DMc[t], orient, na, oc, shape, a, b, k); break;
 			}
 			printm(t);
 		} else {
